@@ -32,6 +32,7 @@ type Spec struct {
 	Cache  int `json:"cache"`  // -1: nil cache, 0: disabled, >0 capacity
 	Batch  int `json:"batch"`  // seed offset so that batches differ
 	Shared128First bool `json:"shared_secret_aes128_first,omitempty"` // the key list starts with an aes-128-gcm key of the SAME secret
+	RandFailAfter  int  `json:"rand_fail_after,omitempty"`            // the system's random source fails from its n-th read on (connections may then fail, but no salt may repeat)
 }
 
 func (s Spec) String() string { b, _ := json.Marshal(s); return string(b) }
@@ -65,6 +66,8 @@ func build(s Spec) *engine.Scenario {
 	sc.Body = func() {
 		salts, unrecognised, statuses, refl = nil, nil, nil, nil
 		vrt.Seed = uint64(1000 + s.Batch)
+		vrt.RandFailAfter = s.RandFailAfter
+		defer func() { vrt.RandFailAfter = 0 }()
 		vw := vnet.Reset()
 		hk.ResetLogs()
 		list := []*world.Key{other, key}
@@ -155,7 +158,7 @@ func build(s Spec) *engine.Scenario {
 		if len(fs) > 0 {
 			return "generic", true, fs
 		}
-		if len(statuses) > 0 {
+		if len(statuses) > 0 && s.RandFailAfter == 0 {
 			add("connection-failed", "%v", statuses)
 		}
 		seen := map[string]int{}
@@ -207,6 +210,11 @@ func specs(tier string) []Spec {
 		}
 		if c != 3 {
 			out = append(out, Spec{Cipher: c, Conns: 5, Cache: -1, Batch: 900 + c, Shared128First: true})
+		}
+		// the entropy source starts failing after a few connections: the server may fail them, but
+		// whatever salts it still sends must not repeat
+		for _, after := range []int{1, 2, 4} {
+			out = append(out, Spec{Cipher: c, Conns: 6, Cache: -1, Batch: 950 + c, RandFailAfter: after})
 		}
 	}
 	return out
